@@ -396,11 +396,18 @@ def evaluate(world, drv, want_states=False, oracles=("effects",), plan=None, fau
         problems = []
         if [p[0] for p in pr] != list(range(len(pr))):
             problems.append("numbering")
+        wants = {}
         for e in truth:
             d = truth_date(e["date"])
             want = ((str(d) if d else "None").encode(), e["loc"])
-            if sum(1 for p in pr if (p[1], p[2]) == want) < 1:
-                problems.append("missing:" + repr(e["loc"]))
+            wants[want] = wants.get(want, 0) + 1
+        for want, k in wants.items():
+            # one line per entry: two entries trashed from the same place within the same second are two lines
+            shown = sum(1 for p in pr if (p[1], p[2]) == want)
+            if shown < k:
+                problems.append("missing:" + repr(want[1]) + ("(%d of %d)" % (shown, k) if k > 1 else ""))
+            elif shown > k and all(x.get("loc") != want[1] or x in truth for x in world["meta"]["entries"]):
+                problems.append("offered-more-than-once:" + repr(want[1]))
         sortm = world.get("opts", {}).get("sort", "date")
         if sortm == "date":
             keys = [p[1] if p[1] != b"None" else b"0001-01-01 00:00:00" for p in pr]
